@@ -266,3 +266,85 @@ theorem mem_toLocalClaims_tx [DecidableEq S] (b : Body) (sec : S) (o : Outpoint)
     rw [Body.tx_get, hget]; rfl
 
 end Ldk.Punish
+
+namespace Ldk.Punish
+
+/-! ### the layout `Spec.body` is well-formed -/
+
+theorem assignIdx_get (hs : List HtlcSpec) : ∀ (base : Nat) (post : List (Nat × OutKind)) (h : Htlc),
+    h ∈ assignIdx base hs → ∀ i, h.outIdx = some i →
+      base ≤ i ∧ (htlcOuts hs ++ post)[i - base]? = some (h.sat, .htlc) := by
+  induction hs with
+  | nil => intro base post h hm; cases hm
+  | cons x rest ih =>
+    intro base post h hm i hi
+    simp only [assignIdx] at hm
+    by_cases hnd : x.nondust
+    · simp only [hnd, if_true, List.mem_cons] at hm
+      rcases hm with rfl | hm
+      · simp only [Option.some.injEq] at hi
+        subst hi
+        simp [htlcOuts, hnd, Htlc.sat]
+      · obtain ⟨h1, h2⟩ := ih (base + 1) post h hm i hi
+        refine ⟨by omega, ?_⟩
+        have e : i - base = (i - (base + 1)) + 1 := by omega
+        simp only [htlcOuts, hnd, if_true, List.cons_append]
+        rw [e, List.getElem?_cons_succ]
+        exact h2
+    · simp only [hnd, Bool.false_eq_true, if_false, List.mem_cons] at hm
+      rcases hm with rfl | hm
+      · cases hi
+      · have := ih base post h hm i hi
+        simpa [htlcOuts, hnd] using this
+
+theorem htlcOuts_covered (hs : List HtlcSpec) : ∀ (base : Nat) (post : List (Nat × OutKind)),
+    (∀ e ∈ post, e.2 ≠ .htlc) → ∀ j sat, (htlcOuts hs ++ post)[j]? = some (sat, .htlc) →
+      ∃ h ∈ assignIdx base hs, h.outIdx = some (base + j) := by
+  induction hs with
+  | nil =>
+    intro base post hpost j sat hget
+    simp only [htlcOuts, List.nil_append] at hget
+    have := List.mem_of_getElem? hget
+    exact absurd rfl (hpost _ this)
+  | cons x rest ih =>
+    intro base post hpost j sat hget
+    by_cases hnd : x.nondust
+    · simp only [htlcOuts, hnd, if_true, List.cons_append] at hget
+      cases j with
+      | zero => exact ⟨⟨x.amtMsat, x.offered, x.cltv, some base⟩, by simp [assignIdx, hnd], rfl⟩
+      | succ j' =>
+        rw [List.getElem?_cons_succ] at hget
+        obtain ⟨h, hm, hi⟩ := ih (base + 1) post hpost j' sat hget
+        refine ⟨h, by simp [assignIdx, hnd, hm], ?_⟩
+        rw [hi]; congr 1; omega
+    · simp only [htlcOuts, hnd, Bool.false_eq_true, if_false] at hget
+      obtain ⟨h, hm, hi⟩ := ih base post hpost j sat hget
+      exact ⟨h, by simp [assignIdx, hnd, hm], hi⟩
+
+theorem Spec.body_wf (s : Spec) : s.body.WF := by
+  have hpre : ∀ e ∈ s.pre, e.2 ≠ .htlc := by
+    intro e he
+    unfold Spec.pre at he
+    cases hr : s.toRemoteSat <;> cases ha : s.anchors <;> simp [hr, ha] at he
+    all_goals (rcases he with rfl | rfl | rfl) <;> simp
+  have hpost : ∀ e ∈ s.post, e.2 ≠ .htlc := by
+    intro e he
+    unfold Spec.post at he
+    cases hl : s.toLocalSat <;> simp [hl] at he
+    subst he; simp
+  constructor
+  · intro h hm i hi
+    obtain ⟨h1, h2⟩ := assignIdx_get s.htlcs s.pre.length s.post h hm i hi
+    simp only [Spec.body]
+    rw [List.getElem?_append_right h1]
+    exact h2
+  · intro i sat hget
+    simp only [Spec.body] at hget ⊢
+    by_cases hi : i < s.pre.length
+    · rw [List.getElem?_append_left hi] at hget
+      exact absurd rfl (hpre _ (List.mem_of_getElem? hget))
+    · rw [List.getElem?_append_right (by omega)] at hget
+      obtain ⟨h, hm, ho⟩ := htlcOuts_covered s.htlcs s.pre.length s.post hpost _ sat hget
+      exact ⟨h, hm, by rw [ho]; congr 1; omega⟩
+
+end Ldk.Punish
